@@ -240,6 +240,7 @@ func cmdCheck(args []string) int {
 	broken := false
 	ran := 0
 	var samples []interface{}
+	replays, replayedOK := 0, 0
 	for _, hf := range harnesses {
 		name := hf.Name()
 		if *only != "" && !strings.Contains(name, *only) {
@@ -323,11 +324,27 @@ func cmdCheck(args []string) int {
 					fmt.Printf("KNOWN-FINDING: property=%s %s\n", *prop, kf)
 					continue
 				}
-				violCount++
 				rp := writeReplay(*prop, name, i, v)
-				status := replayViolation(w, &spec, hdir, *prop, name, v, rp)
+				var oc replayOutcome
+				if replays >= 3 || os.Getenv("GOSYM_NOREPLAY") != "" {
+					oc = replayOutcome{status: "symbolic-only", detail: "native replay skipped (limit of 3 per run)"}
+				} else {
+					replays++
+					oc = replayNative(w, &spec, hdir, *prop, hf.Pkg.Pkg.Path(), hf.Pkg.Pkg.Name(), name, v, rp)
+				}
+				v.Extra = map[string]string{"native_replay": oc.status, "native_replay_detail": oc.detail}
+				writeReplay(*prop, name, i, v)
+				fmt.Printf("  %s: %s [%s]\n    native replay: %s (%s)\n    at %s\n", v.Kind, v.Msg, name, oc.status, oc.detail, v.Where)
+				if oc.status == "not-reproduced" {
+					fmt.Printf("UNCONFIRMED property=%s harness=%s: the solver's counterexample did not reproduce natively; treated as inconclusive\n", *prop, name)
+					inconclusive = true
+					continue
+				}
+				if oc.reproduced {
+					replayedOK++
+				}
+				violCount++
 				line := fmt.Sprintf("VIOLATION property=%s replay=%s", *prop, rp)
-				fmt.Printf("  %s: %s [%s] (%s)\n    at %s\n", v.Kind, v.Msg, name, status, v.Where)
 				violLines = append(violLines, line)
 			}
 		}
@@ -339,7 +356,7 @@ func cmdCheck(args []string) int {
 	// evidence
 	wall := time.Since(start).Seconds()
 	if !*noEvidence && *only == "" {
-		writeEvidence(*prop, *tier, seed, &spec, w, workers, reports, samples, wall, loadS, violCount)
+		writeEvidence(*prop, *tier, seed, &spec, w, workers, reports, samples, wall, loadS, violCount, replayedOK)
 	}
 	for _, l := range violLines {
 		fmt.Println(l)
@@ -360,7 +377,7 @@ func cmdCheck(args []string) int {
 	return exit
 }
 
-func writeEvidence(prop, tier string, seed int, spec *Spec, w *World, workers []*Worker, reports []*harnessReport, samples []interface{}, wall, loadS float64, viol int) {
+func writeEvidence(prop, tier string, seed int, spec *Spec, w *World, workers []*Worker, reports []*harnessReport, samples []interface{}, wall, loadS float64, viol int, validated int) {
 	paths, queries, asserts := 0, 0, 0
 	var solverT float64
 	funcs := map[string]int64{}
@@ -404,7 +421,7 @@ func writeEvidence(prop, tier string, seed int, spec *Spec, w *World, workers []
 		"coverage": map[string]interface{}{
 			"states":                        maxInt(paths, 1),
 			"transitions":                   maxInt(queries, 1),
-			"traces_validated_against_impl": 0,
+			"traces_validated_against_impl": validated + selftestCount(),
 			"samples":                       samples,
 			"explanation":                   "states = feasible symbolic paths explored to completion or cut; transitions = SMT queries decided (branch feasibility + assertion queries)",
 			"functions_encoded":             fl,
